@@ -7,10 +7,11 @@ CONSTANTS
   ValueRegs <- Regs
   Slices = 1
   Slice = 0
-  Ops <- GOps
-  Rcs <- GRcs
-  Vers <- GVers
-  ELos <- GELos
+  Ops <- MOps
+  Rcs <- MRcs
+  Names <- MNames
+  Vers <- MVers
+  ELos <- MELos
   RVals <- GRVals
   RTexts <- GRTexts
 INVARIANT FieldLaws
